@@ -6,6 +6,8 @@
 
 #include <cerrno>
 #include <unistd.h>
+#include <sys/wait.h>
+#include <time.h>
 #include <limits.h>
 
 #include "xtl/xsystem.hpp"
@@ -134,10 +136,12 @@ namespace
 
     size_t interp_len(uint64_t a) { return 2 + static_cast<size_t>(a % (PATH_MAX - 2)); }   // 2 .. PATH_MAX-1
 
-    void exec_plan(const Plan& plan, Run& run)
+    // the steps [first, last) of a plan all concern ONE simulated installation (same target): they run in one process
+    void run_group(const Plan& plan, Run& run, size_t first, size_t last)
     {
-        for (const Step& st : plan.steps)
+        for (size_t si = first; si < last; ++si)
         {
+            const Step& st = plan.steps[si];
             size_t len = interp_len(st.a);
             const char* lc = len_class(len);
             StepScope scope(run, st, lc);
@@ -161,7 +165,7 @@ namespace
                 continue;
             }
             dirty_stack(mix(plan.seed, run.step, 7));
-            errno = k_stale_errnos[(st.c >> 8) % 8];
+            errno = k_stale_errnos[st.d % 8];
             if (errno == EINTR) SIM_PROBE("stale_EINTR_in_errno_before_the_call");
             g_env.active = true;
             std::string got;
@@ -217,6 +221,99 @@ namespace
         }
     }
 
+    // One simulated installation = one process.  A program's own path does not change while it runs, so hidden
+    // per-process state in the code under test (a static buffer, a cached result) must neither be punished when it is
+    // harmless nor leak from one simulated installation into the next: every group of steps with the same target is
+    // executed in a forked child, which reports its violation or its digest, counters and abstract states through a pipe.
+    // A child that does not return within 20 s is killed and reported as a hang.
+    void write_all(int fd, const std::string& s) { size_t o = 0; while (o < s.size()) { ssize_t w = ::write(fd, s.data() + o, s.size() - o); if (w <= 0) break; o += static_cast<size_t>(w); } }
+    void exec_plan(const Plan& plan, Run& run)
+    {
+        size_t first = 0;
+        while (first < plan.steps.size())
+        {
+            size_t last = first + 1;
+            while (last < plan.steps.size() && plan.steps[last].a == plan.steps[first].a && plan.steps[last].b == plan.steps[first].b && plan.steps[last].c == plan.steps[first].c) ++last;
+            int fd[2];
+            if (pipe(fd) != 0) std::abort();
+            std::fflush(stdout); std::fflush(stderr);
+            pid_t pid = fork();
+            if (pid < 0) std::abort();
+            if (pid == 0)
+            {
+                close(fd[0]);
+                Stats& st = stats();
+                for (auto& v : st.values) v = 0;
+                st.abstract.clear();
+                std::ostringstream out;
+                try
+                {
+                    run_group(plan, run, first, last);
+                    out << "OK\n";
+                }
+                catch (const Violation& v) { std::string m = v.msg; for (char& ch : m) if (ch == '\n' || ch == '\t') ch = ' '; out << "V\t" << v.cls << "\t" << v.sig << "\t" << m << "\n"; }
+                out << "R " << run.digest << ' ' << run.step << ' ' << run.changing << ' ' << run.fired << ' ' << run.configured << "\n";
+                for (size_t i = 0; i < st.names.size(); ++i) if (st.values[i]) out << "S " << st.names[i] << ' ' << st.values[i] << "\n";
+                for (uint64_t a : st.abstract) out << "A " << a << "\n";
+                write_all(fd[1], out.str());
+                std::fflush(stdout); std::fflush(stderr);
+                _exit(0);
+            }
+            close(fd[1]);
+            std::string in; char buf[4096];
+            // wait with a deadline
+            struct timespec t0; clock_gettime(CLOCK_MONOTONIC, &t0);
+            int status = 0; bool done = false, hung = false;
+            for (;;)
+            {
+                // drain what is there (the pipe could fill up)
+                // (non-blocking read is not needed: the child writes once, at its end)
+                pid_t r = waitpid(pid, &status, WNOHANG);
+                if (r == pid) { done = true; break; }
+                struct timespec t1; clock_gettime(CLOCK_MONOTONIC, &t1);
+                if (t1.tv_sec - t0.tv_sec > 20) { kill(pid, SIGKILL); waitpid(pid, &status, 0); hung = true; break; }
+                struct timespec nap = {0, 200000}; nanosleep(&nap, nullptr);
+            }
+            if (done) { ssize_t n; while ((n = ::read(fd[0], buf, sizeof(buf))) > 0) in.append(buf, static_cast<size_t>(n)); }
+            close(fd[0]);
+            if (hung)
+            {
+                run.step += 1;
+                fail("hang", std::string("C20/hang/") + op_name(plan.steps[first].op) + "/" + len_class(interp_len(plan.steps[first].a)), "executable_path()/prefix_path() did not return within 20 s");
+            }
+            if (!WIFEXITED(status) || WEXITSTATUS(status) != 0)
+            {
+                // the child crashed (sanitizer report, signal): die the same way, the driver triages the announced run
+                std::fflush(stdout);
+                if (WIFSIGNALED(status)) { signal(WTERMSIG(status), SIG_DFL); raise(WTERMSIG(status)); }
+                _exit(WIFEXITED(status) ? WEXITSTATUS(status) : 70);
+            }
+            std::istringstream is(in);
+            std::string line; bool violated = false; Violation viol;
+            while (std::getline(is, line))
+            {
+                if (line.compare(0, 2, "V\t") == 0)
+                {
+                    size_t a = line.find('\t', 2), b = a == std::string::npos ? a : line.find('\t', a + 1);
+                    if (b != std::string::npos) { violated = true; viol = Violation{line.substr(2, a - 2), line.substr(a + 1, b - a - 1), line.substr(b + 1)}; }
+                }
+                else if (line.compare(0, 2, "R ") == 0)
+                {
+                    std::istringstream ls(line.substr(2));
+                    ls >> run.digest >> run.step >> run.changing >> run.fired >> run.configured;
+                }
+                else if (line.compare(0, 2, "S ") == 0)
+                {
+                    size_t sp = line.rfind(' ');
+                    stats().add(line.substr(2, sp - 2), std::strtoull(line.c_str() + sp + 1, nullptr, 10));
+                }
+                else if (line.compare(0, 2, "A ") == 0) stats().abstract.insert(std::strtoull(line.c_str() + 2, nullptr, 10));
+            }
+            if (violated) throw viol;
+            first = last;
+        }
+    }
+
     uint64_t biased_len(Rng& r)
     {
         unsigned c = static_cast<unsigned>(r.below(10));
@@ -232,14 +329,15 @@ namespace
     {
         size_t n = 1 + cfg.below(12);
         unsigned fault_pct = static_cast<unsigned>(cfg.below(3)) * 15;   // 0, 15 or 30 %
+        // one run = one installed program: every step concerns the same target
+        uint64_t ta = biased_len(pr), tb = pr.next() >> 16, tc = pr.next() >> 40;
         for (size_t i = 0; i < n; ++i)
         {
             Step s;
             unsigned o = static_cast<unsigned>(pr.below(10));
             s.op = o < 5 ? OP_EXE : (o < 9 ? OP_PREFIX : OP_ENDIAN);
-            s.a = biased_len(pr);
-            s.b = pr.next() >> 16;
-            s.c = pr.next() >> 40;
+            s.a = ta; s.b = tb; s.c = tc;
+            s.d = pr.next() >> 44;
             if (s.op != OP_ENDIAN && pr.below(100) < fault_pct) { s.fkind = FK_SYSCALL; s.fk = pr.below(4); }
             plan.steps.push_back(s);
         }
@@ -252,7 +350,7 @@ namespace
         for (uint64_t len = 2; len <= PATH_MAX - 1; ++len)
         {
             Step s;
-            s.op = OP_EXE; s.a = len - 2; s.b = pr.next() >> 16; s.c = pr.next() >> 40;
+            s.op = OP_EXE; s.a = len - 2; s.b = pr.next() >> 16; s.c = pr.next() >> 40; s.d = pr.next() >> 44;
             plan.steps.push_back(s);
             if (len % 8 == phase) { Step p = s; p.op = OP_PREFIX; plan.steps.push_back(p); }
             Step f = s; f.fkind = FK_SYSCALL; f.fk = len % 4; if (len % 2) f.op = OP_PREFIX;
@@ -260,6 +358,6 @@ namespace
         }
     }
 
-    RegisterCfg r1("random", gen_random, exec_plan, 24);
+    RegisterCfg r1("random", gen_random, exec_plan, 400);
     RegisterCfg r2("sweep", gen_sweep, exec_plan, 1);
 }
